@@ -371,10 +371,12 @@ def report(prop, violations, max_lines=20):
 
 # ---------------------------------------------------------------- evidence
 def write_evidence(prop, tier, seed, level, coverage, assumptions, wall_s, violations):
-    os.makedirs(EVID, exist_ok=True)
+    # development runs against a scratch copy of the repository (VERIF_REPO) must not overwrite the evidence of /repo
+    evid = EVID if not os.environ.get("VERIF_REPO") else os.path.join(WORK, "evidence-scratch")
+    os.makedirs(evid, exist_ok=True)
     ev = {"property_id": prop, "tier": tier, "seed": int(seed), "level": level, "coverage": coverage,
           "assumptions": assumptions, "wall_s": round(wall_s, 2), "violations": int(violations)}
-    with open(os.path.join(EVID, prop + ".json"), "w") as f:
+    with open(os.path.join(evid, prop + ".json"), "w") as f:
         json.dump(ev, f, indent=1, sort_keys=True)
         f.write("\n")
 
